@@ -232,9 +232,9 @@ func checkDefs() map[string]CheckDef {
 	add("C10",
 		cat(each("H_C10_cseq", seq(1, 21)), each("H_C10_uint", l(0, 1), seq(1, 21)), each("H_C10_status"),
 			each("H_C10_cexp", seq(1, 24)), each("H_C10_q", seq(0, 5)), each("H_C10_port", l(0, 1, 2, 3, 4, 5), seq(1, 8)), each("H_C10_port", l(0, 4), seq(9, 22)),
-			each("H_C10_hdr", l(0, 1, 2), seq(1, 12))),
-		cat(each("H_C10_hdr", l(0, 1, 2), seq(13, 24)), each("H_C10_cseq", seq(22, 40)), each("H_C10_uint", l(0), seq(22, 36)), each("H_C10_uint", l(1), seq(22, 40)), each("H_C10_cexp", seq(25, 32)), each("H_C10_port", l(0, 1, 3), seq(23, 40))),
-		"every numeric position with all digit strings of length 1..21/24 (40; Expires 36 and Contact expires 32 - the obligations for longer strings time out in z3 and are not claimed): CSeq, Expires, Content-Length, reply status, Contact expires (saturation), q (6 shapes), URI port (6 carriers incl. symbolic passwords before the host); Expires / Content-Length / CSeq header lines of 1..12 (24) digits through ParseHdrLine delivered in two pieces (every cut); reference = exact 64-bit decimal value of the last 19 digits + leading-zero test",
+			each("H_C10_hdr", l(0, 1, 2), seq(1, 12)), each("H_C10_cexp_tok", l(0), seq(1, 6)), each("H_C10_cexp_tok", l(1), seq(1, 4))),
+		cat(each("H_C10_hdr", l(0, 1, 2), seq(13, 24)), each("H_C10_cexp_tok", l(0), seq(7, 12)), each("H_C10_cseq", seq(22, 40)), each("H_C10_uint", l(0), seq(22, 36)), each("H_C10_uint", l(1), seq(22, 40)), each("H_C10_cexp", seq(25, 32)), each("H_C10_port", l(0, 1, 3), seq(23, 40))),
+		"every numeric position with all digit strings of length 1..21/24 (40; Expires 36 and Contact expires 32 - the obligations for longer strings time out in z3 and are not claimed): CSeq, Expires, Content-Length, reply status, Contact expires (saturation), q (6 shapes), URI port (6 carriers incl. symbolic passwords before the host); Expires / Content-Length / CSeq header lines of 1..12 (24) digits through ParseHdrLine delivered in two pieces (every cut); Contact expires / q values that are arbitrary alphanumeric tokens of 1..6 (12) bytes (a number only for digit strings); reference = exact 64-bit decimal value of the last 19 digits + leading-zero test",
 		"digit strings longer than 40; chunk schedules of more than two pieces are covered by C02")
 
 	add("C11",
@@ -261,10 +261,10 @@ func checkDefs() map[string]CheckDef {
 			each("H_reset", l(40, 44, 45, 46), l(3, 4, 1, 11, 12), l(4), l(9, 3, 4), l(3)),
 			each("H_reset", l(44, 45), l(44, 45, 52, 55, 32, 34, 35), l(4), l(3, 4, 44), l(3)),
 			each("H_reset", l(12, 14, 16, 17), l(58, 59, 62), l(3), l(59, 0), l(4))),
-		cat(each("H_reset", l(0, 1, 2, 6, 8, 23), l(0), l(8), l(0), l(7)),
-			each("H_reset", l(12, 13, 14, 16, 17, 19, 30, 31, 34, 35), l(0), l(8), l(0), l(6)),
-			each("H_reset", l(40, 44, 45, 46), l(3, 4, 1, 11, 12, 44, 45), l(6), l(9, 3, 5, 44), l(4))),
-		"history A (fully symbolic 6 (8) bytes or a header / name-addr template with a 3-4 (6) byte window, abandoned at every symbolic cut incl. complete / failed) -> the type's Reset -> input B (5-6 (6-7) symbolic bytes / template) vs. a new object with the same caller arrays: complete object state equal after reset (=> histories of any length), same verdict / offset / observables on B; all parser object types incl. caller arrays of capacity 0,1,2",
+		cat(each("H_reset", l(0, 1, 2), l(0), l(8), l(0), l(7)),
+			each("H_reset", l(6, 8, 13, 16, 23, 30), l(0), l(7), l(0), l(6)),
+			each("H_reset", l(40, 45), l(3, 4, 1, 11, 12, 44, 45), l(6), l(9, 3, 5, 44), l(4))),
+		"history A (fully symbolic 6 (7; 8 for CSeq / Call-ID / numbers) bytes or a header / name-addr template with a 3-4 (6) byte window, abandoned at every symbolic cut incl. complete / failed) -> the type's Reset -> input B (5-6 (6-7) symbolic bytes / template) vs. a new object with the same caller arrays: complete object state equal after reset (=> histories of any length), same verdict / offset / observables on B; all parser object types incl. caller arrays of capacity 0,1,2",
 		"PsipURI (plain struct assignment), longer inputs")
 
 	add("C13",
@@ -305,9 +305,10 @@ func checkDefs() map[string]CheckDef {
 	add("C17",
 		cat(each("H_C17_tok", l(0), l(6), seq(0, 6)), each("H_C17_tok", l(20), l(4), l(0, 1, 2)), each("H_C17_lists", l(0), l(6), l(0, 1, 3)),
 			each("H_C17_tok", l(67, 68), l(3), seq(0, 6)), each("H_C17_tok_chunk", l(67, 68), l(3), l(0, 1, 6)),
-			each("H_C17_tok_chunk", l(0), l(6), l(0, 1, 6)), each("H_C17_tok_chunk", l(20), l(4), l(0, 1))),
-		cat(each("H_C17_tok", l(0), l(8, 9, 10), seq(0, 6)), each("H_C17_tok_chunk", l(0), l(8, 9), l(0, 1, 6)), each("H_C17_tok", l(67, 68), l(5), seq(0, 6)), each("H_C17_tok_chunk", l(67, 68), l(5), l(0, 1, 6)), each("H_C17_lists", l(0), l(8, 9), l(0, 2))),
-		"ParseTokenParam in its documented loop on 6 (10) fully symbolic bytes for 7 option sets (both separators, ',' '?' end-of-header and end-of-input terminators): every reported name/value is inside the documented character set, stripped, in order, with exactly one '=' between them, complete quoted values that end at the first unescaped quote (templates with a 3 (5)-byte window inside a quoted value), and nothing but LWS / separators lies outside the reported parameters; list wrappers count / classify / accumulate; the same loop over an input delivered in two pieces (every cut) for the option sets without the end-of-input option",
+			each("H_C17_tok_chunk", l(0), l(6), l(0, 1, 6)), each("H_C17_tok_chunk", l(20), l(4), l(0, 1)),
+			each("H_C17_shape", seq(0, 6), l(2))),
+		cat(each("H_C17_tok", l(0), l(8, 9, 10), seq(0, 6)), each("H_C17_tok_chunk", l(0), l(8, 9), l(0, 1, 6)), each("H_C17_tok", l(67, 68), l(5), seq(0, 6)), each("H_C17_tok_chunk", l(67, 68), l(5), l(0, 1, 6)), each("H_C17_lists", l(0), l(8, 9), l(0, 2)), each("H_C17_shape", seq(0, 6), l(4))),
+		"ParseTokenParam in its documented loop on 6 (10) fully symbolic bytes for 7 option sets (both separators, ',' '?' end-of-header and end-of-input terminators): every reported name/value is inside the documented character set, stripped, in order, with exactly one '=' between them, complete quoted values that end at the first unescaped quote (templates with a 3 (5)-byte window inside a quoted value), and nothing but LWS / separators lies outside the reported parameters; completeness: a 3-parameter list built by construction from symbolic bytes of the documented character set (2 (4)-byte name and value, 1-byte valueless name, quoted value, optional SP / HT around separators) is accepted and reported exactly as written, all 7 option sets; list wrappers count / classify / accumulate; the same loop over an input delivered in two pieces (every cut) for the option sets without the end-of-input option",
 		"POptTokSpTermF lists; longer inputs")
 
 	add("C18",
